@@ -334,11 +334,17 @@ def _lengths_interpreted(ctx, r4, r6, repo, reg):
     pyhf_excs = set(repo.module("src/pyhf/exceptions/__init__.py").classes)
     nb = {"c1": 2, "c2": 2}
 
+    worlds = {}
+
     def run_builder(b, key, cells):
-        ext = listnp.externals()
-        ext.update({"required_parset": lambda a, k: {"required": True}})
-        w = World(ext, region=AutoRegion(), module_env={"pyhf": Obj("pyhf", {"default_backend": Obj("default_backend")}), "exceptions": Obj("exceptions")})
-        w.add_class(b)
+        # one world per builder class for ALL its cases (well-formed first): module- and class-level state is shared, a
+        # refusal must not depend on what was built or refused before
+        if b.name not in worlds:
+            ext = listnp.externals()
+            ext.update({"required_parset": lambda a, k: {"required": True}})
+            worlds[b.name] = World(ext, region=AutoRegion(), module_env={"pyhf": Obj("pyhf", {"default_backend": Obj("default_backend")}), "exceptions": Obj("exceptions")})
+            worlds[b.name].add_class(b)
+        w = worlds[b.name]
         cfg = Obj("config", {"channel_nbins": {k_: c(v_) for k_, v_ in nb.items()}, "channels": ["c1", "c2"], "samples": ["s"]})
         inst = w.new(b, [cfg], {})
         for ch, moddata in cells:
@@ -457,8 +463,13 @@ def _duplicates_interpreted(ctx, repo, reg, pyhf_excs):
     def same_modifier_twice(sp):
         sp["channels"][0]["samples"][0]["modifiers"].append(copy.deepcopy(sp["channels"][0]["samples"][0]["modifiers"][1]))
 
+    # all situations are built one after the other in ONE world (module-level and class-level state of pdf.py and the
+    # modifier modules shared): a specification is refused whatever was built, or refused, before it, and a well-formed
+    # one is accepted afterwards
+    shared_world = pipeline_world(repo, reg, {})
     for lab, mut, must_raise in (("well-formed", None, False), ("two channels with one name", dup_channel, True), ("two samples with one name in a channel", dup_sample, True),
-                                 ("one (name, type) modifier twice on a sample with different data", dup_modifier, True), ("the same modifier entry repeated verbatim", same_modifier_twice, None)):
+                                 ("one (name, type) modifier twice on a sample with different data", dup_modifier, True), ("the same modifier entry repeated verbatim", same_modifier_twice, None),
+                                 ("two channels with one name, again", dup_channel, True), ("well-formed, after the refusals", None, False)):
         sp = base()
         if mut:
             mut(sp)
@@ -470,7 +481,7 @@ def _duplicates_interpreted(ctx, repo, reg, pyhf_excs):
         cfg = Obj("config", {"channels": chans, "samples": sorted({sm["name"] for ch in sp["channels"] for sm in ch["samples"]}), "channel_nbins": {k_: c(v_) for k_, v_ in nb.items()}, "modifiers": mods, "modifier_settings": {}})
         site = f"{PDF}::_nominal_and_modifiers_from_spec [interpreted: {lab}]"
         try:
-            w, mset = pipeline_world(repo, reg, {})
+            w, mset = shared_world
             w.call_func(f, [mset, cfg, sp, None])
             if must_raise:
                 ctx.violated(rid, f, f"duplicate names [{lab}]", f"a specification with {lab} is accepted as a model: part of the declared content is silently dropped or merged", expected="raise InvalidModel", found="accepted")
